@@ -109,6 +109,12 @@ func New(opts ...Option) *Server {
 	for _, opt := range opts {
 		opt(cfg)
 	}
+	// a server without any EnableSecurity option offers unsecured channels,
+	// which is what it accepted before channels were checked against the
+	// enabled security settings.
+	if len(cfg.enabledSec) == 0 {
+		cfg.enabledSec = append(cfg.enabledSec, security{secPolicy: ua.SecurityPolicyURINone, secMode: ua.MessageSecurityModeNone})
+	}
 	url := ""
 	if len(cfg.endpoints) != 0 {
 		url = cfg.endpoints[0]
